@@ -19,14 +19,19 @@ for name in sorted(os.listdir(sd)):
     own.append(m['property'] in m.get('caught_by', []))
     rows.append('| %s | %s | %s | %s | %s / %s | %s | `%s` |' % (
         name, m['property'], title.replace('|', '/'), m.get('baseline_with_change', '').replace('baseline: ', ''),
-        m['demo_with_change']['exit'], m['demo_without_change']['exit'], ','.join(m.get('caught_by', [])) or '**none**', first))
+        m['demo_with_change']['exit'], m['demo_without_change']['exit'],
+        ','.join(m.get('caught_by', [])) or ('none (benign for the property as read, see missed.md)' if m.get('benign') else '**none**'), first))
+n_other = sum(1 for r, o in zip(rows, own) if not o and 'none' not in r.split('|')[7])
+n_benign = sum(1 for r in rows if 'none (benign' in r)
 head = ('# Changes seeded by independent sub-agents\n\nEach sub-agent saw only the text of one property and a scratch worktree of /repo '
         '(nothing from /verif). For every change: `patch.diff`, the agent\'s stand-alone `demo.py` (exit 1 with the change, 0 without) and '
-        '`meta.json` (what it needs to manifest, what was run, which checks caught it). All were re-verified here with `tools/seed_eval.py` '
-        '(apply, pinned baseline, demo with/without, quick check with VERIF_REPO pointing at the patched tree).  Seeds named `-w3` are the '
-        'third wave (a second pair for ten of the properties).  %d seeds, %d reported by the property\'s own quick check.\n\n'
+        '`meta.json` (what it needs to manifest, what was run, which checks caught it; `base` when a later library fix made the change '
+        'harmless and it is kept against the tree it was written for). All were re-verified here with `tools/seed_eval.py` (apply, pinned '
+        'baseline, demo with/without, quick check with VERIF_REPO pointing at the patched tree).  Seeds named `-w3` ... `-w6` come from the '
+        'later waves (see DESIGN.md 10.4).  %d seeds: %d reported by the quick check of their own property, %d only by other checks, '
+        '%d benign for the property as it is read (see missed.md).\n\n'
         '| seed | property | change | suite with change | demo with / without | caught by | first violation signature |\n|---|---|---|---|---|---|---|\n'
-        % (len(rows), sum(own)))
+        % (len(rows), sum(own), n_other, n_benign))
 missed = open(os.path.join(sd, 'missed.md')).read() if os.path.exists(os.path.join(sd, 'missed.md')) else ''
 open(os.path.join(sd, 'README.md'), 'w').write(head + '\n'.join(rows) + '\n\n' + missed)
 print(len(rows), 'seeds')
